@@ -358,7 +358,37 @@ def build(job):
     return r, model, info, [(data, None)]
 
 
+CHUNK_SRC = '''
+@dataclass
+class M:
+    content: list[object] = field(default_factory=list, metadata={"type": "Wildcard", "namespace": "##any", "mixed": True})
+'''
+
+
+def chunk_job(job):
+    """finding C08-F8 / C11-F1: both handlers read element.tail at the `end` event of iterparse; a tail that straddles
+    the tokeniser's read boundary (16 KiB xml.etree, 32 KiB lxml) is not there yet"""
+    model = IP.Model(IP.full_source(CHUNK_SRC), "M")
+    from xsdata.formats.dataclass.parsers import XmlParser
+    out = []
+    for pad in job["pads"]:
+        doc = ("<M>" + "x" * pad + "<b/>" + "TAIL" * 6 + "</M>").encode()
+        res = {}
+        for name, h in (("native", XmlEventHandler), ("lxml", LxmlEventHandler)):
+            try:
+                o = XmlParser(context=model.ctx, handler=h).from_bytes(doc, model.root)
+                res[name] = [c if isinstance(c, str) else [c.qname, c.tail] for c in o.content][1:]
+            except Exception as e:  # noqa
+                res[name] = "exc " + type(e).__name__
+        out.append({"pad": pad, "native": res["native"], "lxml": res["lxml"], "equal": res["native"] == res["lxml"],
+                    "complete": res["native"] == [["b", "TAIL" * 6]] and res["lxml"] == [["b", "TAIL" * 6]]})
+    model.close()
+    return {"id": job["id"], "seed": job["seed"], "model": job["model"], "cases": [], "chunk": out}
+
+
 def run_job(job):
+    if "chunk" in job["model"]:
+        return chunk_job(job)
     r, model, info, docs = build(job)
     cases = []
     if docs is None:
